@@ -245,16 +245,11 @@ Definition string_token (fl : flags) (cs : str) : lres :=
 Definition is_builtin_type (n : str) : bool :=
   existsb (NM.str_eqb n) [s_Any; s_Null; s_boolean; s_number; s_string; s_date; s_date_and_time; s_time; s_ym_duration; s_dt_duration].
 
-(* Name::new trims every part (str::trim, the characters with the Unicode property White_Space).  A part is a run of name part
-   characters or one additional symbol; the only such character with that property is U+1680 (OGHAM SPACE MARK, inside the name
-   start range 037F-1FFF), so trimming a part is dropping U+1680 at both ends.  (C10.Model.name_new leaves the trim out.) *)
-Fixpoint trim_left (p : str) : str :=
-  match p with
-  | c :: r => if (c =? 5760)%N then trim_left r else p
-  | [] => []
-  end.
-Definition trim_part (p : str) : str := rev (trim_left (rev (trim_left p))).
-Definition name_of (parts : list str) : str := NM.name_new (map trim_part parts).
+(* Name::new trims every part (str::trim, the characters with the Unicode property White_Space): C10.Model.name_new has the trim.
+   A part is a run of name part characters or one additional symbol; the only such character with that property is U+1680
+   (OGHAM SPACE MARK, inside the name start range 037F-1FFF), so on collected parts the trim drops U+1680 at both ends
+   (C10.Trim.collect_trim_ogham). *)
+Definition name_of (parts : list str) : str := NM.name_new parts.
 
 (* `while part_count > 0`: a scope key first, then (type-name mode) a built-in type name; the flag says which *)
 Fixpoint search_t (keys : list str) (ty : bool) (parts : list str) (pc : nat) : option (nat * bool) :=
